@@ -212,7 +212,11 @@ class Engine(ExprMixin, CallMixin, StmtMixin):
                 try:
                     res = coerce(res, T.parse_type(c.returns)) if c.returns not in ("none", "None") else res
                 except Unsupported as e:
-                    raise Unsupported("return value of type %s does not fit declared %s" % (res.ty, c.returns))
+                    # the function returns a value of another type than its contract declares on this path
+                    self.obligations.append(Obligation(self.cur_name, "post", "type", s2.conds(), z3.BoolVal(False),
+                                                       "returns %s where the contract declares %s" % (res.ty, c.returns),
+                                                       npaths, inputs, getattr(fdef, "lineno", 0)))
+                    continue
             # in ensures, parameters of immutable type denote their entry values (as in the native reading, where the
             # caller's ints/tuples cannot be changed by the callee); mutable ones denote the object's final state
             post_env = {p: v for p, v in entry.vars.items()
